@@ -504,6 +504,11 @@ fn handle_failure(ctx: &RunCtx, prop: &Property, sc: &SubCheck, known: &[Known],
         res.known_hits.insert(k.signature.clone(), k.what.clone());
         return;
     }
+    if f.msg.starts_with("harness:") {
+        // a defect of the machinery itself is never reported as a violation of the property
+        res.infra.push(format!("sub-check {}: {} (case {})", sc.name, f.msg, case));
+        return;
+    }
     let case = if minimise { fen_minimise(prop.id, sc.name, sc.check, &case) } else { case };
     // re-evaluate to get the message of the minimised case
     let mut st = Stats::default();
